@@ -639,6 +639,95 @@ def r24_name_wildcard_loop(text, base_line=0):
     return pat.sub("for __it in ", text), log
 
 
+def _balanced(text, open_pos):
+    """offset just past the bracket that closes the one at open_pos"""
+    pairs = {"(": ")", "[": "]", "{": "}"}
+    depth, k = 0, open_pos
+    while k < len(text):
+        c = text[k]
+        if c in pairs:
+            depth += 1
+        elif c in pairs.values():
+            depth -= 1
+            if depth == 0:
+                return k + 1
+        k += 1
+    raise LostAnchor("unbalanced bracket in extracted text")
+
+
+def r25_par_map_collect(text, base_line=0):
+    """R25: `let V: Vec<_> = E .into_par_iter() .map(|(A, B)| { BODY }) .collect();` (E a pair of slices: rayon's zipped, order-
+    preserving parallel map) -> `let mut V = Vec::new(); for __s in 0..min(E.0.len(), E.1.len()) { let (A, B) = (&E.0[__s], &E.1[__s]); V.push({ BODY }); }`"""
+    log = []
+    pat = re.compile(r"let\s+(\w+)\s*:\s*Vec<_>\s*=\s*(\w+)\s*\.into_par_iter\(\)\s*\.map\(\|\((\w+),\s*(\w+)\)\|\s*\{")
+    while True:
+        m = pat.search(text)
+        if not m:
+            return text, log
+        v, e, a, b = m.groups()
+        body_open = m.end() - 1
+        body_close = _balanced(text, body_open)
+        tail = re.match(r"\s*\)\s*\.collect\(\);", text[body_close:])
+        if not tail:
+            raise LostAnchor("R25: `.collect();` does not follow the mapped closure")
+        body = text[body_open:body_close]
+        head = ("let mut %s = Vec::new(); for __s in 0..(if %s.0.len() < %s.1.len() { %s.0.len() } else { %s.1.len() }) { let (%s, %s) = (&%s.0[__s], &%s.1[__s]); %s.push("
+                % (v, e, e, e, e, a, b, e, e, v))
+        pre_nl = text[m.start():body_open].count("\n")
+        post_nl = tail.group(0).count("\n")
+        new = head + "\n" * pre_nl + body + "); }" + "\n" * post_nl
+        log.append("R25 line %d: `let %s: Vec<_> = %s.into_par_iter().map(|(%s, %s)| {..}).collect();` -> sequential index loop pushing the closure body's value "
+                   "(rayon's indexed parallel map + collect keeps input order: assumed, C05's subject)" % (base_line + text.count("\n", 0, m.start()), v, e, a, b))
+        text = text[:m.start()] + new + text[body_close + tail.end():]
+
+
+def r26_zip_iter_mut(text, base_line=0):
+    """R26: `for (A, B) in X.iter_mut().zip(Y.iter()) {` -> `for __z in 0..min(X.len(), Y.len()) { let A = &mut X[__z]; let B = &Y[__z];`"""
+    log = []
+    pat = re.compile(r"for\s*\(\s*(\w+)\s*,\s*(\w+)\s*\)\s*in\s*(\w+)\.iter_mut\(\)\.zip\((\w+)\.iter\(\)\)\s*\{")
+    while True:
+        m = pat.search(text)
+        if not m:
+            return text, log
+        a, b, x, y = m.groups()
+        new = "for __z in 0..(if %s.len() < %s.len() { %s.len() } else { %s.len() }) { let %s = &mut %s[__z]; let %s = &%s[__z];" % (x, y, x, y, a, x, b, y)
+        log.append("R26 line %d: `%s` -> `%s`" % (base_line + text.count("\n", 0, m.start()), m.group(0), new))
+        text = text[:m.start()] + new + text[m.end():]
+
+
+def r27_sum_f32(text, base_line=0):
+    """R27: `E.iter().sum::<f32>()` -> `f32_sum(&E)` (opaque: std's in-order float sum of the elements)"""
+    log = []
+    pat = re.compile(r"(\w+)\.iter\(\)\.sum::<f32>\(\)")
+    for m in pat.finditer(text):
+        log.append("R27 line %d: `%s` -> `f32_sum(&%s)`" % (base_line + text.count("\n", 0, m.start()), m.group(0), m.group(1)))
+    return pat.sub(lambda m: "f32_sum(&%s)" % m.group(1), text), log
+
+
+def r28_as_f32(text, base_line=0):
+    """R28: `E as f32` (E = a path of field accesses / `.len()` calls) -> `usize_as_f32(E)` (opaque conversion)"""
+    log = []
+    pat = re.compile(r"(\b\w+(?:\.\w+(?:\(\))?)*)\s+as\s+f32\b")
+    for m in pat.finditer(text):
+        log.append("R28 line %d: `%s` -> `usize_as_f32(%s)`" % (base_line + text.count("\n", 0, m.start()), m.group(0), m.group(1)))
+    return pat.sub(lambda m: "usize_as_f32(%s)" % m.group(1), text), log
+
+
+def r29_consuming_for(text, base_line=0):
+    """R29: `for (A, B, C) in V {` (consuming a Vec in order) -> `let mut __v = V; while __v.len() > 0 { let (A, B, C) = __v.remove(0);`
+    (same elements in the same order; vstd specifies `Vec::remove`, not the `IntoIter` of this Verus version)"""
+    log = []
+    pat = re.compile(r"for\s*(\([\w\s,]+\))\s*in\s*(\w+)\s*\{")
+    while True:
+        m = pat.search(text)
+        if not m:
+            return text, log
+        pt, v = m.groups()
+        new = "let mut __v = %s; while __v.len() > 0 { let %s = __v.remove(0);" % (v, pt)
+        log.append("R29 line %d: `%s` -> `%s`" % (base_line + text.count("\n", 0, m.start()), m.group(0), new))
+        text = text[:m.start()] + new + text[m.end():]
+
+
 def r21_to_owned(text, base_line=0):
     """R21: `.to_owned()` -> `.clone()` (identical for a `Clone` type; vstd specifies `Clone`)"""
     log = []
@@ -656,9 +745,9 @@ REWRITES = {
     "R1": r1_compound_assign, "R2": r2_unary_minus, "R3": r3_scale_call, "R6": r6_for_with_continue,
     "R7": r7_isqrt, "R8": r8_step_by, "R9": r9_consts, "R10": r10_tail_continue,
     "R12": r12_enumerate, "R15": r15_iter, "R16": r16_map_index, "R17": r17_for_in_ref_vec, "R18": r18_assert_eq_shape,
-    "R19": r19_last_unwrap, "R20": r20_range_enumerate, "R21": r21_to_owned, "R22": r22_map_collect, "R23": r23_slice_iter, "R24": r24_name_wildcard_loop, "R13": r13_panic_allowed, "R14": r14_panic_forbidden,
+    "R19": r19_last_unwrap, "R20": r20_range_enumerate, "R21": r21_to_owned, "R22": r22_map_collect, "R23": r23_slice_iter, "R24": r24_name_wildcard_loop, "R25": r25_par_map_collect, "R26": r26_zip_iter_mut, "R27": r27_sum_f32, "R28": r28_as_f32, "R29": r29_consuming_for, "R13": r13_panic_allowed, "R14": r14_panic_forbidden,
 }
-ORDER = ["R18", "R13", "R14", "R16", "R20", "R22", "R23", "R24", "R12", "R15", "R17", "R19", "R21", "R10", "R8", "R6", "R9", "R7", "R3", "R1", "R2"]
+ORDER = ["R18", "R13", "R14", "R16", "R25", "R26", "R29", "R27", "R28", "R20", "R22", "R23", "R24", "R12", "R15", "R17", "R19", "R21", "R10", "R8", "R6", "R9", "R7", "R3", "R1", "R2"]
 
 
 def apply_rewrites(text, names, base_line):
@@ -904,7 +993,7 @@ def generate(template_path, repo, canary=False, contracts_dir=None, exclude=None
             continue
         if s.startswith("//@body "):
             spec = parse_kv(s[len("//@body "):])
-            loop_inv, inserts, skips, outlines = {}, [], [], []
+            loop_inv, inserts, skips, outlines, types = {}, [], [], [], []
             j = i + 1
             while tl[j].strip() != "//@endbody":
                 d = tl[j].strip()
@@ -917,6 +1006,11 @@ def generate(template_path, repo, canary=False, contracts_dir=None, exclude=None
                         k += 1
                     loop_inv[n] = subst("\n".join(buf))
                     j = k + 1
+                    continue
+                m = re.match(r"//@type\s+(\w+)\s*=\s*(.+)$", d)
+                if m:
+                    types.append((m.group(1), m.group(2).strip()))
+                    j += 1
                     continue
                 m = re.match(r'//@outline\s+unit=(\S+)\s+call="(.*)"$', d)
                 if m:
@@ -1011,6 +1105,13 @@ def generate(template_path, repo, canary=False, contracts_dir=None, exclude=None
             text, log = apply_rewrites(text, rw, first_line)
             G.units[unit]["desc"].append(desc)
             G.units[unit]["drops"] += log
+            # `//@type VAR = TYPE`: a type annotation on the unique `let mut VAR = Vec::new();` (static information only; rustc rejects a wrong one)
+            for (var, ty) in types:
+                pat_t = "let mut %s = Vec::new();" % var
+                if text.count(pat_t) != 1:
+                    raise LostAnchor("unit %s: `%s` not found exactly once for //@type" % (unit, pat_t))
+                text = text.replace(pat_t, "let mut %s: %s = Vec::new();" % (var, ty))
+                G.units[unit]["drops"].append("type annotation added: `let mut %s: %s`" % (var, ty))
             if spec.get("part", "whole").startswith("closure:"):
                 G.units[unit]["drops"].append(
                     "R4: closure parameter pattern |%s| became wrapper parameters; the iterator adapter "
